@@ -157,10 +157,10 @@ def DInv (d : DSt) : Prop :=
   (d.var ≠ 2 → (d.pc < 5 ∨ d.pc = 11 → d.execs = 0) ∧ (5 ≤ d.pc ∧ d.pc ≤ 10 → d.execs = 1)) ∧
   (d.var = 2 → d.execs = 0) ∧
   -- result handed to the caller
-  (d.pc = 10 → d.var = 0 → d.res = d.out) ∧
-  (d.pc = 11 → d.res = 3 ∧ d.nilm = 1) ∧
+  (d.pc = 10 → d.var = 0 → d.res = d.out + 2) ∧
+  (d.pc = 11 → d.res = 1 ∧ d.nilm = 1) ∧
   (d.pc ≠ 0 → d.pc ≠ 11 → d.nilm = 0) ∧
-  (d.pc < 10 → d.res = 9) ∧
+  (d.pc < 10 → d.res = 0) ∧
   -- the per-module counter: +1 at begin, −1 at conclude
   (d.pc < 5 ∨ d.pc = 11 → d.mI = 0) ∧ (5 ≤ d.pc ∧ d.pc ≤ 10 → d.mI = 1) ∧
   (d.pc < 7 ∨ d.pc = 11 → d.mD = 0) ∧ (7 ≤ d.pc ∧ d.pc ≤ 10 → d.mD = 1) ∧
@@ -182,7 +182,9 @@ def DInv (d : DSt) : Prop :=
   (d.var ≠ 2 → d.flag = 0) ∧
   (d.flag = 0 → d.dones = 0) ∧ (d.flag = 1 → 1 ≤ d.dones) ∧
   -- the stop check of the conclusion: after the module decrement, before the global one
-  d.chk ≤ 1 ∧ (d.pc < 7 ∨ d.pc = 11 → d.chk = 0) ∧ (8 ≤ d.pc ∧ d.pc ≤ 10 → d.chk = 1)
+  d.chk ≤ 1 ∧ (d.pc < 7 ∨ d.pc = 11 → d.chk = 0) ∧ (8 ≤ d.pc ∧ d.pc ≤ 10 → d.chk = 1) ∧
+  -- no timer of the task's clearance wait fires before the documented max delay, except for Signal*(0) calls
+  (¬(d.zd = 1 ∧ d.var = 2) → d.ez = 0)
 
 theorem dinv_new (cls var nilm zd : Nat) : DInv (DSt.new cls var nilm zd) := by
   unfold DInv DSt.new; simp
@@ -190,12 +192,24 @@ theorem dinv_new (cls var nilm zd : Nat) : DInv (DSt.new cls var nilm zd) := by
 /-- regenerated: `concludeMicroTask` runs the stop check unconditionally between its two decrements -/
 theorem concludeChecksStop_true : concludeChecksStop = true := rfl
 
+/-- regenerated: each of the four timers of `get{Medium,Low}PriorityClearance` (enqueue phase, wait phase) is armed
+    with the function's `maxDelay` parameter -/
+theorem armed_param (ph : Phase) (p : Prio) : armed ph p = Arm.param := by
+  cases ph <;> cases p <;> rfl
+
+/-- regenerated: the function's error reaches the caller of the blocking variants unchanged -/
+theorem retVal_eq (out : Nat) : retVal out = out + 2 := rfl
+
+theorem zN_true : zN true = 1 := rfl
+theorem zN_false : zN false = 0 := rfl
+
 syntax "dinv_tac" : tactic
 set_option hygiene false in
 macro_rules
   | `(tactic| dinv_tac) => `(tactic|
       (unfold DInv at *
-       simp only [dstep, prioCls, if_true, if_false, Bool.false_eq_true, concludeChecksStop_true, true_implies] at hs
+       simp only [dstep, prioCls, if_true, if_false, Bool.false_eq_true, concludeChecksStop_true, true_implies,
+         DSt.zOk, DSt.early, armed_param, retVal_eq, ne_eq, not_true_eq_false, or_false, zN_true, zN_false] at hs
        (repeat' split at hs) <;> (try cases hs) <;> (try dsimp only) <;> grind (splits := 90)))
 
 variable {d d' : DSt}
@@ -211,12 +225,14 @@ theorem dinv_hinc (h : DInv d) (hs : dstep d .hinc true = some d') : DInv d' := 
 theorem dinv_take (p : Prio) (b : Bool) (h : DInv d) (hs : dstep d (.take p b) true = some d') : DInv d' := by
   cases p <;> cases b <;> dinv_tac
 theorem dinv_tmoEnq (p : Prio) (z : Bool) (h : DInv d) (hs : dstep d (.tmoEnq p z) true = some d') : DInv d' := by
-  cases p <;> dinv_tac
+  cases p <;> cases z <;> dinv_tac
 theorem dinv_tmoInc (h : DInv d) (hs : dstep d .tmoInc true = some d') : DInv d' := by dinv_tac
 theorem dinv_tmoWait (p : Prio) (z : Bool) (h : DInv d) (hs : dstep d (.tmoWait p z) true = some d') : DInv d' := by
-  cases p <;> dinv_tac
-theorem dinv_tmoHeld (z : Bool) (h : DInv d) (hs : dstep d (.tmoHeld z) true = some d') : DInv d' := by dinv_tac
-theorem dinv_tmoLate (z : Bool) (h : DInv d) (hs : dstep d (.tmoLate z) true = some d') : DInv d' := by dinv_tac
+  cases p <;> cases z <;> dinv_tac
+theorem dinv_tmoHeld (z : Bool) (h : DInv d) (hs : dstep d (.tmoHeld z) true = some d') : DInv d' := by
+  cases z <;> dinv_tac
+theorem dinv_tmoLate (z : Bool) (h : DInv d) (hs : dstep d (.tmoLate z) true = some d') : DInv d' := by
+  cases z <;> dinv_tac
 theorem dinv_begin (b : Bool) (h : DInv d) (hs : dstep d (.begin b) true = some d') : DInv d' := by
   cases b <;> dinv_tac
 theorem dinv_fnRet (b : Bool) (o : Nat) (h : DInv d) (hs : dstep d (.fnRet b o) true = some d') : DInv d' := by
@@ -330,6 +346,42 @@ theorem minv_run (as : List MAct) : ∀ {m m' : MSt}, MInv m → mrun m as = som
     split at hr
     · rename_i m1 hm1
       exact ih (minv_step a h hm1) hr
+    · cases hr
+
+/-! ### the task followed together with its module -/
+
+/-- a step of the product is a step of the task's own automaton (or leaves it alone): the module never acts on it -/
+theorem tstep_f {t t' : TSt} {a : TAct} (h : tstep t a = some t') :
+    t'.f = t.f ∨ ∃ b me, fstep t.f b me = some t'.f := by
+  cases a with
+  | mod a =>
+    simp only [tstep] at h
+    split at h
+    · cases h; exact Or.inl rfl
+    · cases h
+  | task b me =>
+    right
+    refine ⟨b, me, ?_⟩
+    simp only [tstep] at h
+    split at h
+    · cases h
+    · rename_i f' hf
+      rw [hf]
+      (repeat' split at h) <;> cases h <;> rfl
+
+theorem tinv_run (tr : List TAct) : ∀ {t t' : TSt}, Inv t.f.g → DInv t.f.d → trun t tr = some t' →
+    Inv t'.f.g ∧ DInv t'.f.d := by
+  induction tr with
+  | nil => intro t t' h1 h2 hr; simp [trun] at hr; subst hr; exact ⟨h1, h2⟩
+  | cons a tr ih =>
+    intro t t' h1 h2 hr
+    simp only [trun] at hr
+    split at hr
+    · rename_i t1 ht1
+      rcases tstep_f ht1 with he | ⟨b, me, hf⟩
+      · exact ih (he ▸ h1) (he ▸ h2) hr
+      · have := fstep_some hf
+        exact ih (inv_step b h1 this.1) (dinv_step b me h2 this.2) hr
     · cases hr
 
 end PB.MicroTasks
